@@ -26,9 +26,10 @@ VARIABLES ci,     \* index of the current case
           mods,   \* models of everything added so far, over 1..n
           asm,    \* current assumptions (sequence of literals)
           pn,     \* number of variables the parsed problem reports (from the "dump" event)
+          tsv,    \* assignment of the solver as rebuilt from the white-box events (see WbFold)
           bad,    \* rejected steps
           nev     \* events consumed (for the acceptance count)
-vars == <<ci, ei, n, mods, asm, pn, bad, nev>>
+vars == <<ci, ei, n, mods, asm, pn, tsv, bad, nev>>
 
 Case == Cases[ci]
 Ev == Case.ev[ei]
@@ -52,6 +53,8 @@ ModelWhy(m, S) == IF ~LenOK(m) THEN "model-length"
 
 (* certificate of a CNF case (C06): every line a consequence, the sequence a RUP derivation,  *)
 (* and on Unsat the empty clause derivable by unit propagation at the end                      *)
+Mech(w) == w \in {"mech:assigned-twice", "mech:reason-without-literal",
+                 "mech:propagation-not-forced", "mech:conflict-not-falsified"}
 F0 == {Range(Case.cons[i].lits) : i \in 1..Len(Case.cons)}
 CertWhy(e) ==
   IF ~e.certOn THEN ""
@@ -152,42 +155,72 @@ DumpWhy(e) == IF e.d.n = n /\ DumpModels(e.d) # mods
 (* strengthen it).  Every learned constraint must be a consequence of that set (C14, C06);   *)
 (* deriving the empty constraint is allowed only if no model satisfies the assumptions.      *)
 WbC(e) == [lits |-> e.lits, w |-> e.w, rel |-> ">=", rhs |-> e.d]
-(* lv: the decision level of each assigned variable (0 = unassigned), rebuilt from the assign /  *)
-(* prop / backtrack events.  It binds TwoWatch.tla to the code: a clause added at a non-zero     *)
-(* level (block event with at least 3 literals) must have its two highest-level literals in the  *)
-(* watched positions 1 and 2 (Scheme = "highest").                                               *)
-WatchOrderOK(e, lv) ==
+(* sv: for each variable 0 if unassigned, +level if true, -level if false, rebuilt from the     *)
+(* assign / prop / backtrack events (a tuple built with \o and Append: TLC evaluates those      *)
+(* strictly, nested function constructors would be re-evaluated lazily at every use).           *)
+(* This is the conformance of the recorded search with the mechanism model CDCL.tla:            *)
+(*   assign / prop   the variable is unassigned (TrailConsistent)                               *)
+(*   prop            the reason is a consequence of the problem and forces the literal under    *)
+(*                   the current assignment: its coefficient exceeds the slack (ReasonForces)   *)
+(*   conflict        the constraint is a consequence and has negative slack (ConflEntailed)     *)
+(*   learn           the learned constraint is a consequence (LearnEntailed)                    *)
+(*   block           a clause added at a non-zero level has its two highest-level literals in   *)
+(*                   the watched positions 1 and 2 (TwoWatch.tla, Scheme = "highest")           *)
+LitFalseS(sv, l) == IF l > 0 THEN sv[l] < 0 ELSE sv[-l] > 0
+RECURSIVE SlackS(_, _, _)
+SlackS(e, sv, i) == IF i = 0 THEN -e.d
+                    ELSE SlackS(e, sv, i - 1) + (IF LitFalseS(sv, e.lits[i]) THEN 0 ELSE e.w[i])
+CoefOf(e, l) == LET i == CHOOSE i \in 1..Len(e.lits) : e.lits[i] = l IN e.w[i]
+InRange(e, k) == \A i \in 1..Len(e.lits) : e.lits[i] # 0 /\ Abs(e.lits[i]) <= k
+WatchOrderOK(e, sv) ==
   Len(e.lits) < 3 \/ \A j \in 3..Len(e.lits) :
-      /\ lv[Abs(e.lits[j])] <= lv[Abs(e.lits[1])]
-      /\ lv[Abs(e.lits[j])] <= lv[Abs(e.lits[2])]
-(* lv is kept as a tuple built with \o and Append: TLC evaluates those strictly, whereas nested *)
-(* function constructors would be re-evaluated lazily at every use                            *)
-SetAt(lv, x, y) == SubSeq(lv, 1, x - 1) \o <<y>> \o SubSeq(lv, x + 1, Len(lv))
+      /\ Abs(sv[Abs(e.lits[j])]) <= Abs(sv[Abs(e.lits[1])])
+      /\ Abs(sv[Abs(e.lits[j])]) <= Abs(sv[Abs(e.lits[2])])
+SetAt(sv, x, y) == SubSeq(sv, 1, x - 1) \o <<y>> \o SubSeq(sv, x + 1, Len(sv))
 RECURSIVE CutFrom(_, _, _)
-CutFrom(lv, L, i) == IF i > Len(lv) THEN <<>> ELSE <<IF lv[i] > L THEN 0 ELSE lv[i]>> \o CutFrom(lv, L, i + 1)
-CutAbove(lv, L) == CutFrom(lv, L, 1)
+CutFrom(sv, L, i) == IF i > Len(sv) THEN <<>> ELSE <<IF Abs(sv[i]) > L THEN 0 ELSE sv[i]>> \o CutFrom(sv, L, i + 1)
+CutAbove(sv, L) == CutFrom(sv, L, 1)
 RECURSIVE Zeros(_)
 Zeros(k) == IF k = 0 THEN <<>> ELSE Append(Zeros(k - 1), 0)
+Signed(l, lvl) == IF l > 0 THEN lvl ELSE -lvl
+
+(* the fold returns [why, sv]: the first rejected clause ("" if none) and the assignment at the end *)
+R(w, sv) == [why |-> w, sv |-> sv]
 RECURSIVE WbFold(_, _, _, _, _)
-WbFold(wb, i, M, k, lv) ==
-  IF i > Len(wb) THEN ""
+WbFold(wb, i, M, k, sv) ==
+  IF i > Len(wb) THEN R("", sv)
   ELSE LET e == wb[i] IN
        IF e.k \in {"append", "block"}
-       THEN IF MaxVar(e.lits) > k THEN ""   \* variable set grows: handled by the black-box layer only
-            ELSE IF e.k = "block" /\ ~WatchOrderOK(e, lv) THEN "block-watch-order"
-            ELSE WbFold(wb, i + 1, {m \in M : SatC(m, WbC(e))}, k, lv)
+       THEN IF MaxVar(e.lits) > k THEN R("", sv)   \* variable set grows: handled by the black-box layer only
+            ELSE IF e.k = "block" /\ ~WatchOrderOK(e, sv) THEN R("block-watch-order", sv)
+            ELSE WbFold(wb, i + 1, {m \in M : SatC(m, WbC(e))}, k, sv)
        ELSE IF e.k \in {"learn", "learn-pb"}
-       THEN IF \A m \in M : SatC(m, WbC(e)) THEN WbFold(wb, i + 1, M, k, lv)
-            ELSE "learned-not-entailed:" \o ToString(CHOOSE m \in M : ~SatC(m, WbC(e)))
+       THEN IF \A m \in M : SatC(m, WbC(e)) THEN WbFold(wb, i + 1, M, k, sv)
+            ELSE R("learned-not-entailed:" \o ToString(CHOOSE m \in M : ~SatC(m, WbC(e))), sv)
        ELSE IF e.k = "learn-empty"
-       THEN IF {m \in M : SatLits(m, asm)} = {} THEN WbFold(wb, i + 1, M, k, lv) ELSE "derived-false-on-satisfiable"
+       THEN IF {m \in M : SatLits(m, asm)} = {} THEN WbFold(wb, i + 1, M, k, sv) ELSE R("derived-false-on-satisfiable", sv)
        ELSE IF e.k \in {"assign", "prop"} /\ Abs(e.lit) \in 1..k
-       THEN WbFold(wb, i + 1, M, k, SetAt(lv, Abs(e.lit), e.lvl))
+       THEN IF sv[Abs(e.lit)] # 0 /\ sv[Abs(e.lit)] # Signed(e.lit, e.lvl)
+            THEN R("mech:assigned-twice", sv)   \* (a repeated unit clause puts its literal on the trail twice: harmless, allowed)
+            ELSE IF e.k = "prop" /\ InRange(e, k) /\ ~(\E x \in 1..Len(e.lits) : e.lits[x] = e.lit) THEN R("mech:reason-without-literal", sv)
+            ELSE IF e.k = "prop" /\ InRange(e, k) /\ sv[Abs(e.lit)] = 0 /\ CoefOf(e, e.lit) <= SlackS(e, sv, Len(e.lits))
+                 THEN R("mech:propagation-not-forced", sv)
+            ELSE WbFold(wb, i + 1, M, k, SetAt(sv, Abs(e.lit), Signed(e.lit, e.lvl)))
+       ELSE IF e.k = "conflict" /\ InRange(e, k)
+       THEN IF SlackS(e, sv, Len(e.lits)) >= 0 THEN R("mech:conflict-not-falsified", sv)
+            ELSE WbFold(wb, i + 1, M, k, sv)
        ELSE IF e.k = "backtrack"
-       THEN WbFold(wb, i + 1, M, k, CutAbove(lv, e.lvl))
-       ELSE WbFold(wb, i + 1, M, k, lv)
-WbWhy(e) == LET w == WbFold(e.wb, 1, mods, n, Zeros(n)) IN
-            IF w = "" THEN "" ELSE IF Case.wbStrict /\ w # "block-watch-order" THEN w ELSE "diag:" \o w
+       THEN WbFold(wb, i + 1, M, k, CutAbove(sv, e.lvl))
+       ELSE WbFold(wb, i + 1, M, k, sv)
+(* the assignment persists from one call to the next (top-level facts survive); it is stretched when *)
+(* appended constraints introduced new variables                                                   *)
+Stretch(sv, k) == IF Len(sv) >= k THEN SubSeq(sv, 1, k) ELSE sv \o Zeros(k - Len(sv))
+WbRes(e) == WbFold(e.wb, 1, mods, n, Stretch(tsv, n))
+(* mechanism-level clauses are diagnostics (NOTE + amplification); only C06 / C14 promote the    *)
+(* entailment of what is learned to a property clause (Case.wbStrict)                            *)
+WbWhy(e) == LET w == WbRes(e).why IN
+            IF w = "" THEN ""
+            ELSE IF Case.wbStrict /\ w # "block-watch-order" /\ ~Mech(w) THEN w ELSE "diag:" \o w
 
 First(a, b2) == IF a # "" THEN a ELSE b2
 
@@ -215,27 +248,35 @@ Why == CASE Ev.op = "solve"    -> First(SolveWhy(Ev), WbWhy(Ev))
 NewN == IF Ev.op = "append" THEN Max2(n, MaxVar(Ev.c.lits)) ELSE n
 NewMods == IF Ev.op = "append" THEN {m \in Extend(mods, n, NewN) : SatC(m, AsWritten(Ev.c))} ELSE mods
 NewAsm == IF Ev.op = "assume" THEN Ev.ls ELSE asm
+(* parse-time units are on the trail at level 1 before the first call *)
+RECURSIVE UnitsSv(_, _, _)
+UnitsSv(us, i, sv) == IF i > Len(us) THEN sv
+                      ELSE IF Abs(us[i]) \in 1..Len(sv) THEN UnitsSv(us, i + 1, SetAt(sv, Abs(us[i]), Signed(us[i], 1)))
+                      ELSE UnitsSv(us, i + 1, sv)
+HasWb == Ev.op \in {"solve", "count", "enum", "optimal", "minimize"}
+NewTsv == IF Ev.op = "dump" THEN UnitsSv(Ev.d.units, 1, Zeros(n))
+          ELSE IF HasWb THEN WbRes(Ev).sv ELSE tsv
 NewPn == IF Ev.op = "dump" THEN Ev.d.n
          ELSE IF Ev.op = "append" THEN Max2(pn, MaxVar(Ev.c.lits)) ELSE pn
 
 Load(k) == /\ n' = Cases[k].n
            /\ mods' = Models(Cases[k].n, AsWrittenAll(Cases[k].cons))
-           /\ asm' = <<>> /\ pn' = Cases[k].n
+           /\ asm' = <<>> /\ pn' = Cases[k].n /\ tsv' = Zeros(Cases[k].n)
 
 Init == /\ ci = 1 /\ ei = 1 /\ bad = <<>> /\ nev = 0
         /\ IF Len(Cases) >= 1
-           THEN /\ n = Cases[1].n /\ mods = Models(Cases[1].n, AsWrittenAll(Cases[1].cons)) /\ asm = <<>> /\ pn = Cases[1].n
-           ELSE /\ n = 0 /\ mods = {} /\ asm = <<>> /\ pn = 0
+           THEN /\ n = Cases[1].n /\ mods = Models(Cases[1].n, AsWrittenAll(Cases[1].cons)) /\ asm = <<>> /\ pn = Cases[1].n /\ tsv = Zeros(Cases[1].n)
+           ELSE /\ n = 0 /\ mods = {} /\ asm = <<>> /\ pn = 0 /\ tsv = <<>>
 
 Step == /\ ci <= Len(Cases) /\ ei <= Len(Case.ev)
         /\ LET why == Why IN
            bad' = IF why = "" THEN bad ELSE Append(bad, <<Case.id, ei, why>>)
-        /\ n' = NewN /\ mods' = NewMods /\ asm' = NewAsm /\ pn' = NewPn
+        /\ n' = NewN /\ mods' = NewMods /\ asm' = NewAsm /\ pn' = NewPn /\ tsv' = NewTsv
         /\ ei' = ei + 1 /\ nev' = nev + 1 /\ UNCHANGED ci
 
 NextCase == /\ ci <= Len(Cases) /\ ei > Len(Case.ev)
             /\ ci' = ci + 1 /\ ei' = 1 /\ UNCHANGED <<bad, nev>>
-            /\ IF ci + 1 <= Len(Cases) THEN Load(ci + 1) ELSE UNCHANGED <<n, mods, asm, pn>>
+            /\ IF ci + 1 <= Len(Cases) THEN Load(ci + 1) ELSE UNCHANGED <<n, mods, asm, pn, tsv>>
 
 Next == Step \/ NextCase
 Spec == Init /\ [][Next]_vars
